@@ -140,6 +140,8 @@ Fixpoint run_seg (fuel : nat) (sm : sem) (thr : Z) (ps : list gstmt) : list fram
     | GSwitch _ _ :: _ => ([], thr, StStuck "switch")
     | GLoopN _ _ :: _ => ([], thr, StStuck "loopn")
     | GFor _ _ :: _ => ([], thr, StStuck "for")
+    | GRange _ _ :: _ => ([], thr, StStuck "range")
+    | GLabel _ :: _ => ([], thr, StStuck "label")
     | GBranch _ :: _ => ([], thr, StStuck "branch")
     | GOpaque :: _ => ([], thr, StUnmodelled)
     end
